@@ -3,6 +3,7 @@
 package main
 
 import (
+	storetypes "cosmossdk.io/store/types"
 	"encoding/json"
 	"fmt"
 
@@ -229,7 +230,7 @@ func (c *caseT) op() {
 func (c *caseT) genesis() {
 	r := c.r
 	g := tunnelkeeper.ExportGenesis(c.ctx, c.app.TunnelKeeper)
-	variant := r.Intn(6)
+	variant := r.Intn(8)
 	if len(g.Tunnels) == 0 {
 		variant = 0
 	}
@@ -256,6 +257,17 @@ func (c *caseT) genesis() {
 		if len(g.Deposits) > 0 {
 			g.Deposits = append(g.Deposits, g.Deposits[r.Intn(len(g.Deposits))])
 		}
+	case 6: // a tunnel whose id is beyond the counter (the next created tunnel would take the same id)
+		k := pickT()
+		g.Tunnels[k].ID = g.TunnelCount + uint64(r.Range(1, 2))
+		for i := range g.Deposits {
+			if g.Deposits[i].TunnelID == uint64(k+1) {
+				g.Deposits[i].TunnelID = g.Tunnels[k].ID
+			}
+		}
+	case 7: // the same tunnel twice
+		g.Tunnels = append(g.Tunnels, g.Tunnels[pickT()])
+		g.TunnelCount++
 	case 5: // a record for a tunnel that does not exist
 		if len(g.Deposits) > 0 {
 			d := g.Deposits[r.Intn(len(g.Deposits))]
@@ -283,7 +295,49 @@ func (c *caseT) genesis() {
 		es = "rejected"
 	}
 	c.tr.Tag(fmt.Sprintf("genesis-variant-%d", variant))
-	c.tr.Op(fx.M{"op": "genesis", "variant": variant, "tunnels": tun, "deposits": deps, "out": fx.M{"accepted": err == nil, "err": es}})
+	c.tr.Op(fx.M{"op": "genesis", "variant": variant, "count": g.TunnelCount, "tunnels": tun, "deposits": deps, "out": fx.M{"accepted": err == nil, "err": es}})
+}
+
+// reimport: export the module's genesis, validate it, initialise a branch of the store from it; the dump must not change
+// setMinDeposit: governance changes the minimum deposit (MsgUpdateParams → SetParams); existing tunnels are not touched
+func (c *caseT) setMinDeposit() {
+	c.minD = [][]int64{{100, 0}, {100, 50}, {1, 0}, {0, 70}, {300, 0}, {2000, 0}}[c.r.Intn(6)]
+	p := c.app.TunnelKeeper.GetParams(c.ctx)
+	p.MinDeposit = coinsOf(c.minD)
+	fx.Must(c.app.TunnelKeeper.SetParams(c.ctx, p))
+	c.emit(fx.M{"op": "setMinDeposit", "amt": c.minD}, "")
+}
+
+func (c *caseT) reimport() {
+	cctx, _ := c.ctx.CacheContext()
+	saved := c.ctx
+	e := fx.Try(func() error {
+		g := tunnelkeeper.ExportGenesis(cctx, c.app.TunnelKeeper)
+		if err := tunneltypes.ValidateGenesis(*g); err != nil {
+			return err
+		}
+		wipe(cctx.KVStore(c.app.GetKey(tunneltypes.StoreKey)))
+		tunnelkeeper.InitGenesis(cctx, c.app.TunnelKeeper, g)
+		return nil
+	})
+	c.ctx = cctx
+	out := c.dump()
+	c.ctx = saved
+	out["err"] = e
+	c.tr.Op(fx.M{"op": "reimport", "out": out})
+}
+
+// wipe empties a module store (on a branch): the import then starts from nothing but the genesis, as on a new chain
+func wipe(st storetypes.KVStore) {
+	var keys [][]byte
+	it := st.Iterator(nil, nil)
+	for ; it.Valid(); it.Next() {
+		keys = append(keys, append([]byte{}, it.Key()...))
+	}
+	it.Close()
+	for _, k := range keys {
+		st.Delete(k)
+	}
 }
 
 func runCase(app *fx.App, tr *fx.Trace, r *fx.Rng) {
@@ -312,8 +366,13 @@ func runCase(app *fx.App, tr *fx.Trace, r *fx.Rng) {
 		if r.Chance(1, 8) {
 			c.genesis()
 		}
+		if r.Chance(1, 12) {
+			c.setMinDeposit()
+			c.reimport()
+		}
 	}
 	c.genesis()
+	c.reimport()
 }
 
 func main() {
